@@ -62,3 +62,7 @@ impl vstd::std_specs::fmt::DisplaySpecImpl for Error {
 #[verifier::external]
 impl core::fmt::Display for Error { fn fmt(&self, _f: &mut core::fmt::Formatter<'_>) -> core::fmt::Result { unimplemented!() } }
 impl Error { #[verifier::external_body] pub fn to_string(&self) -> String { unimplemented!() } }
+pub proof fn lemma_dec_slice(v: &[Value], i: int)
+    requires 0 <= i < v@.len()
+    ensures decreases_to!(v@ => v@[i])
+{}
